@@ -29,15 +29,18 @@ def tasks(tier):
             ts.append(Task('verifHarness_C11_drain', [version, a]))
     for api in range(9):
         ts.append(Task('verifHarness_C11_caller', [api]))
+    for api in range(7):
+        ts.append(Task('verifHarness_C11_router_nodialect', [api]))
     return ts
 
 
 def required_reach(tier):
-    return ['C11/K1', 'C11/K3', 'C11/K4']
+    return ['C11/K1', 'C11/K3', 'C11/K4', 'C11/K4r']
 
 
 def bounds(tier):
-    return {'K1_dispatch': '3 channels with every membership subset + one foreign channel, every target; each queue with an arbitrary '
+    return {'K4_router_without_dialect': 'node with Dialect = nil: raw v1 / v2 frames (id, payload, checksum symbolic) through WriteFrameAll/To/Except are accepted and handed over once, unchanged; a decoded message is refused',
+            'K1_dispatch': '3 channels with every membership subset + one foreign channel, every target; each queue with an arbitrary '
                            'fill level 0..64 (symbolic); map iteration order: every rotation',
             'K3_drain': 'queue of 3 items (message / frame mixes), v1 and v2 link',
             'K4_caller': 'the six Write* entry points, one call each (v2 frames), plus the three WriteFrame* with a v1 frame through the v2 node',
